@@ -70,6 +70,15 @@ def run(ctx):
         ok = isinstance(loop, ast.For) and U(loop.iter) == "self.kernel" and U(c.args[0]) == "%s.line_number" % U(loop.target)
         ctx.check(ok and len(sink_edges) == 1, "R3", "every kernel line gets an edge to the virtual sink", f.where(c),
                   "terminal edges are not added for every line of self.kernel", f.qname, "sink edge per line")
+        if ok:
+            # ... on every iteration: no path through the loop body back to the header that avoids the add_edge
+            st = cfg.node_of(c)
+            skipping = cfg.reachable(loop, loop, avoid=[st], within=loop) if loop.body else True
+            ctx.check(not skipping, "R3", "the sink edge is added unconditionally for each line", f.where(c),
+                      "an iteration over the kernel can finish without adding the line's edge to the sink (conditional / "
+                      "`continue`): such an instruction can no longer end a chain, so its own latency is missing from the "
+                      "maximised weight whenever its outgoing edges weigh less than its latency (e.g. write-back edges, "
+                      "which carry p_index_latency)", f.qname, "sink edge unconditional")
         sink = U(c.args[1])
         sdef = C.assigns_to(f.node, sink)
         ctx.check(bool(sdef) and isinstance(sdef[0].value, ast.Constant) and isinstance(sdef[0].value.value, str), "R3",
